@@ -177,45 +177,58 @@ async def run_scenario(sc):
         finally:
             info["t1"] = now()
 
+    async def drive():
+        # Runs in a task of its own: a cancel scope the code under test leaks (enters and never leaves) keeps
+        # cancelling the task that entered it - that must not be the worker's main task.
+        if path in ("normal", "exception"):
+            await ctx()
+            info["exit"] = "returned"
+        elif path == "cancel_scope":
+            with anyio.CancelScope() as scope:
+                ctl["trigger"] = lambda dt: loop.call_later(dt, scope.cancel)
+                await ctx()
+            info["exit"] = "cancelled" if scope.cancelled_caught else "returned"
+        elif path == "timeout_scope":
+            with anyio.move_on_after(3600) as scope:
+                def _trig(dt, scope=scope):
+                    scope.deadline = anyio.current_time() + dt
+                ctl["trigger"] = _trig
+                await ctx()
+            info["exit"] = "cancelled" if scope.cancelled_caught else "returned"
+        elif path == "cancel_task":
+            task = asyncio.ensure_future(ctx())
+            ctl["trigger"] = lambda dt: loop.call_later(dt, task.cancel)
+            try:
+                await task
+                info["exit"] = "returned"
+            except asyncio.CancelledError:
+                if not task.cancelled():
+                    raise
+                info["exit"] = "cancelled"
+        elif path == "timeout_task":
+            try:
+                async with asyncio.timeout(None) as tm:
+                    ctl["trigger"] = lambda dt: tm.reschedule(loop.time() + dt)
+                    await ctx()
+                info["exit"] = "returned"
+            except TimeoutError:
+                info["exit"] = "cancelled"
+        else:
+            raise Problem("unknown path " + path)
+
     gc.collect()
     fd_before = nfd()
     try:
         try:
-            if path in ("normal", "exception"):
-                await ctx()
-                info["exit"] = "returned"
-            elif path == "cancel_scope":
-                with anyio.CancelScope() as scope:
-                    ctl["trigger"] = lambda dt: loop.call_later(dt, scope.cancel)
-                    await ctx()
-                info["exit"] = "cancelled" if scope.cancelled_caught else "returned"
-            elif path == "timeout_scope":
-                with anyio.move_on_after(3600) as scope:
-                    def _trig(dt, scope=scope):
-                        scope.deadline = anyio.current_time() + dt
-                    ctl["trigger"] = _trig
-                    await ctx()
-                info["exit"] = "cancelled" if scope.cancelled_caught else "returned"
-            elif path == "cancel_task":
-                task = asyncio.ensure_future(ctx())
-                ctl["trigger"] = lambda dt: loop.call_later(dt, task.cancel)
-                try:
-                    await task
-                    info["exit"] = "returned"
-                except asyncio.CancelledError:
-                    if not task.cancelled():
-                        raise
-                    info["exit"] = "cancelled"
-            elif path == "timeout_task":
-                try:
-                    async with asyncio.timeout(None) as tm:
-                        ctl["trigger"] = lambda dt: tm.reschedule(loop.time() + dt)
-                        await ctx()
-                    info["exit"] = "returned"
-                except TimeoutError:
-                    info["exit"] = "cancelled"
-            else:
-                raise Problem("unknown path " + path)
+            driver = asyncio.ensure_future(drive())
+            try:
+                await driver
+            except asyncio.CancelledError:
+                if not driver.cancelled():
+                    raise
+                info["exit"] = "driver-task-cancelled"
+                if "t0" not in info:
+                    info["problem"] = "scenario did not reach its exit point: driver task cancelled"
         except Boom:
             info["exit"] = "raised-body-exception"
         except Problem as e:
